@@ -203,7 +203,7 @@ F_NOTATION = ["pkg/parser/comment.go", "pkg/option/"]
 F_PARSER = ["pkg/parser/parser.go", "pkg/parser/interface.go", "pkg/parser/method.go", "pkg/util/ast.go"]
 F_RUNNER = ["main.go", "pkg/config/config.go", "pkg/runner/runner.go", "pkg/generator/generator.go"]
 MODELLED = {
-    "C01": F_BUILDER + F_METHOD + F_HOOKS,
+    "C01": F_BUILDER + F_METHOD + F_HOOKS + ["pkg/parser/parser.go:Parser.Parse"],
     "C02": F_BUILDER + F_METHOD,
     "C03": F_PARSER + F_RUNNER + F_METHOD,
     "C04": F_BUILDER + ["pkg/option/option.go"],
@@ -237,7 +237,7 @@ PROPS = {
                    sweep_front("matching", 100, 3000, cats=["body", "slice"], compile=True),
                    sweep_front("notations", 60, 2000, cats=["body", "slice"], compile=True),
                    sweep_front("getters", 60, 2000, cats=["body", "slice"], compile=True),
-                   sweep_front("selection", 40, 1500, cats=["body", "header"], compile=True),
+                   sweep_front("selection", 60, 1500, cats=["body", "header"], compile=True),
                    sweep_front("errors", 60, 2000, cats=["body", "errflow"], compile=True),
                    sweep_front("runtime", 60, 2000, cats=["body", "errflow", "slice", "hook"], compile=True),
                    sweep_front("generics", 40, 1500, cats=["body", "slice", "header"], compile=True),
